@@ -1,7 +1,7 @@
 import ExprModel.Gen.Opcodes
-import ExprModel.Proofs.CompileWf
-import ExprModel.Proofs.Sound
-import ExprModel.Proofs.Balance
+import ExprModel.Proofs.BcCompile
+import ExprModel.Proofs.BcSound
+import ExprModel.Proofs.BcBalance
 /-
 C05 — Emitted bytecode is well-formed and stack-balanced.
 
@@ -99,20 +99,20 @@ theorem mkConst_preserves {v : Val} {p p' : Pool} {k : Nat} (hp : PoolOk p) (h :
 /-- Instruction level, unconditional: for every tree and configuration the compiled instruction list has
     operands in range and of the expected kind, every jump on a boundary of the program or at its end,
     Begin/End nested.  (No size hypothesis: the structured code's jump operands are the exact distances.) -/
-theorem compile_wfInstrs (cfg : CompCfg) (hcfg : CfgOk cfg) (n : Node) (c : Compiled)
+theorem compile_wfInstrs (cfg : CompCfg) (hcfg : CompCfgOk cfg) (n : Node) (c : Compiled)
     (h : compileProgram cfg n = .ok c) : wfInstrs c.consts (instrs c.code) = true :=
   (compileProgram_frag cfg hcfg n c h).1.wfInstrs
 
 /-- Byte level: every program produced by the compile model whose jump operands fit the encoding's 16 bits
     is accepted by the static checker. -/
-theorem compile_wfStatic (cfg : CompCfg) (hcfg : CfgOk cfg) (n : Node) (c : Compiled)
+theorem compile_wfStatic (cfg : CompCfg) (hcfg : CompCfgOk cfg) (n : Node) (c : Compiled)
     (h : compileProgram cfg n = .ok c) (hfit : c.FitsU16) : wfStatic c.bytes c.consts = true := by
   obtain ⟨hf, hsz, _⟩ := compileProgram_frag cfg hcfg n c h
   exact wfStatic_of_frag hf hsz hfit
 
 /-- With the offset guard in patchJump / calcBackwardJump (the fix), no hypothesis on sizes is left:
     every program `Compile` returns is well-formed; oversized ones are rejected. -/
-theorem compile_wfStatic_guarded (cfg : CompCfg) (hcfg : CfgOk cfg) (hg : cfg.jumpGuard = true) (n : Node)
+theorem compile_wfStatic_guarded (cfg : CompCfg) (hcfg : CompCfgOk cfg) (hg : cfg.jumpGuard = true) (n : Node)
     (c : Compiled) (h : compileProgram cfg n = .ok c) : wfStatic c.bytes c.consts = true := by
   obtain ⟨hf, hsz, hfit⟩ := compileProgram_frag cfg hcfg n c h
   exact wfStatic_of_frag hf hsz (hfit hg)
@@ -183,44 +183,44 @@ theorem jump_truncation_witness :
 
 /-! ### stack balance (partial: the straight-line sub-language) -/
 
-/-- Stack balance, fragment level, for `SL` trees (literals, unary operators, the arithmetic and ordering
+/-- Stack balance, fragment level, for `StraightLine` trees (literals, unary operators, the arithmetic and ordering
     operators): wherever the compiled fragment is placed in a program (`pre`, `post`, any pool extending its own)
     and with whatever stack `st` and scopes it is entered, the byte-level VM either fails with an ordinary run-time
     error — never a pop of an empty stack, never a malformed-program error — or reaches exactly the end of the
     fragment with `v :: st` and the scopes unchanged. -/
-theorem compile_balanced_partial (cfg : CompCfg) {n : Node} (hsl : SL n) (p0 : Pool) (code : List LInstr) (p1 : Pool)
-    (hp : PoolOk p0) (h : compileNode cfg n p0 = .ok (code, p1)) (consts : Array Val) (he : Ext p1.consts consts)
+theorem compile_balanced_partial (cfg : CompCfg) {n : Node} (hsl : StraightLine n) (p0 : Pool) (code : List LInstr) (p1 : Pool)
+    (hp : PoolOk p0) (h : compileNode cfg n p0 = .ok (code, p1)) (consts : Array Val) (he : PoolExt p1.consts consts)
     (pre post : List Instr) (vc : Cfg) (s : VM) (hip : s.ip = codeSize pre) :
-    Bal s.stack s.scopes (codeSize pre + lsize code)
-      (runN vc (Prog.ofCode (pre ++ instrs code ++ post) consts) (instrs code).length s) :=
+    StackBal s.stack s.scopes (codeSize pre + lsize code)
+      (stepN vc (Prog.ofCode (pre ++ instrs code ++ post) consts) (instrs code).length s) :=
   balanced_sl cfg hsl p0 code p1 hp h consts he pre post vc s hip
 
-/-- Whole runs of `SL` programs: a successful run ends with exactly the result (the stack is empty after `Run`
+/-- Whole runs of `StraightLine` programs: a successful run ends with exactly the result (the stack is empty after `Run`
     popped it) and no scope open; a failing run fails with an ordinary error, not by popping an empty stack. -/
-theorem compile_run_balanced_partial (cfg : CompCfg) (hcast : cfg.cast = none) {n : Node} (hsl : SL n) (c : Compiled)
+theorem compile_run_balanced_partial (cfg : CompCfg) (hcast : cfg.cast = none) {n : Node} (hsl : StraightLine n) (c : Compiled)
     (h : compileProgram cfg n = .ok c) (vc : Cfg) (fuel : Nat) (hf : c.code.length < fuel) :
     match (run vc (Prog.ofCode (instrs c.code) c.consts) fuel).1 with
     | .ok _ => (run vc (Prog.ofCode (instrs c.code) c.consts) fuel).2.stack = [] ∧
                (run vc (Prog.ofCode (instrs c.code) c.consts) fuel).2.scopes = []
     | .error e => e ≠ .underflow ∧ e ≠ .badop ∧ e ≠ .fuel := by
   unfold compileProgram at h
-  obtain ⟨⟨code, p⟩, h1, h⟩ := bind_ok h
+  obtain ⟨⟨code, p⟩, h1, h⟩ := cr_bind_ok h
   dsimp only at h
   split at h
   · cases h
   · simp only [hcast, pure, Except.pure, Except.ok.injEq] at h
     subst h
     simp only [List.append_nil] at hf ⊢
-    exact run_of_balanced (balanced_sl cfg hsl _ _ _ PoolOk.empty h1 _ (Ext.refl _)) vc fuel (by simpa [instrs] using hf)
+    exact run_of_balanced (balanced_sl cfg hsl _ _ _ PoolOk.empty h1 _ (PoolExt.refl _)) vc fuel (by simpa [instrs] using hf)
 
 /-- non-vacuity: `1 + -2 < 3` is in the sub-language -/
-example : SL (.binary {} "<" (.binary {} "+" (.int {} 1) (.unary {} "-" (.int {} 2))) (.int {} 3)) :=
+example : StraightLine (.binary {} "<" (.binary {} "+" (.int {} 1) (.unary {} "-" (.int {} 2))) (.int {} 3)) :=
   .binary _ _ _ _ .less .less rfl rfl (.binary _ _ _ _ .add .add rfl rfl (.int _ _) (.unary _ _ _ (.int _ _))) (.int _ _)
 
 /-- the full run-time half of the property (all constructs, including the loops whose stack height is not static);
-    it is the shape of C01's refinement theorem and is established there, here only for `SL` -/
+    it is the shape of C01's refinement theorem and is established there, here only for `StraightLine` -/
 def compile_balanced_goal : Prop :=
-  ∀ (cfg : CompCfg) (n : Node) (c : Compiled), CfgOk cfg → compileProgram cfg n = .ok c → c.FitsU16 →
+  ∀ (cfg : CompCfg) (n : Node) (c : Compiled), CompCfgOk cfg → compileProgram cfg n = .ok c → c.FitsU16 →
     ∀ (vc : Cfg) (fuel : Nat),
       match (run vc (Prog.ofCode (instrs c.code) c.consts) fuel).1 with
       | .ok _ => (run vc (Prog.ofCode (instrs c.code) c.consts) fuel).2.stack = [] ∧
